@@ -53,6 +53,12 @@ def build_template(d, variant):
     if variant.get("refs") == "mixed":
         core.git(["branch", "looseb", "HEAD"], cwd=d)
         core.git(["update-ref", "refs/heads/side", "HEAD"], cwd=d)  # loose shadows packed
+    if variant.get("detached"):
+        # HEAD detached on a commit that no branch or tag contains: HEAD alone keeps it alive
+        core.git(["checkout", "-q", "--detach"], cwd=d)
+        with open(os.path.join(d, "f0.txt"), "a") as f:
+            f.write("only HEAD reaches this\n")
+        core.git(["commit", "-q", "-am", "detached"], cwd=d)
     # an unreachable object
     r = core.git(["hash-object", "-w", "--stdin"], cwd=d, input=b"unreachable\n")
     return d
@@ -182,6 +188,19 @@ def scenarios():
         r.object_store.add_thin_pack(io.BytesIO(thin).read, None)
     S["add_thin_pack"] = with_repo(s_thin)
 
+    def s_redeliver(r, p, pre):
+        # the same set of objects as an existing pack arrives again in another byte layout (re-delivery of a history, re-import of a
+        # bundle): the pack gets the same name; a fresh process (nothing looked up yet) completes it
+        data = _st.get("same_set_pack")
+        f, commit, abort = r.object_store.add_pack()
+        try:
+            f.write(data)
+        except BaseException:
+            abort()
+            raise
+        commit()
+    S["redeliver_same_objects"] = with_repo(s_redeliver)
+
     def s_fetch(r, p, pre):
         from dulwich.client import LocalGitClient
         src = _st["thin_src"]
@@ -209,11 +228,12 @@ def scenarios():
     return S
 
 
-SCENARIOS = ["add_object", "add_objects", "commit", "set_if_equals", "add_if_new", "remove_if_equals", "set_symbolic_ref", "pack_refs",
+SCENARIOS = ["redeliver_same_objects", "add_object", "add_objects", "commit", "set_if_equals", "add_if_new", "remove_if_equals", "set_symbolic_ref", "pack_refs",
              "pack_loose_objects", "repack", "gc", "index_write", "config_write", "write_commit_graph", "write_midx", "add_thin_pack", "fetch_into",
              "push_into"]
 VARIANTS = {"loose": {"objects": "loose", "refs": "loose"}, "packed": {"objects": "packed", "refs": "packed"},
-            "mixed": {"objects": "mixed", "refs": "mixed"}, "mixed-fsync": {"objects": "mixed", "refs": "mixed", "fsync": True}}
+            "mixed": {"objects": "mixed", "refs": "mixed"}, "mixed-fsync": {"objects": "mixed", "refs": "mixed", "fsync": True},
+            "mixed-detached": {"objects": "mixed", "refs": "mixed", "detached": True}}
 
 
 def ensure_templates():
@@ -238,6 +258,34 @@ def ensure_templates():
         core.git(["commit", "-q", "-am", "newer %d" % i], cwd=src)
     core.git(["branch", "-f", "master", "newer~2"], cwd=src)
     _st["thin_src"] = src
+    # the objects of the "packed" template's only pack, written again without deltas and in reverse order: same set, same pack name
+    pk = _st["tmpl"]["packed"]
+    pdir = os.path.join(pk, ".git", "objects", "pack")
+    idxf = [f for f in os.listdir(pdir) if f.endswith(".idx")][0]
+    lines = core.git(["verify-pack", "-v", os.path.join(pdir, idxf)], cwd=pk).stdout.splitlines()
+    oids = [l.split()[0] for l in lines if len(l.split()) >= 4 and len(l.split()[0]) == 40]
+    _st["same_set_pack"] = core.git(["pack-objects", "--stdout", "--window=0", "--depth=0", "-q"], cwd=pk, input=b"\n".join(reversed(oids)) + b"\n",
+                                    extra_cfg=["pack.compression=1"]).stdout
+    # C git names a pack after its trailer, dulwich after its object set: for the re-delivered pack to get the name of the one in
+    # place, the first delivery must have gone through dulwich too
+    from dulwich.repo import Repo
+    pdw = _st["scratch"].sub("tmpl-packed-dulwich")
+    shutil.rmtree(pdw)
+    shutil.copytree(pk, pdw, symlinks=True)
+    first = open(os.path.join(pdir, idxf[:-4] + ".pack"), "rb").read()
+    pd2 = os.path.join(pdw, ".git", "objects", "pack")
+    for f_ in os.listdir(pd2):
+        os.chmod(os.path.join(pd2, f_), 0o644)
+        os.unlink(os.path.join(pd2, f_))
+    r_ = Repo(pdw)
+    try:
+        f, commit, abort = r_.object_store.add_pack()
+        f.write(first)
+        commit()
+    finally:
+        r_.close()
+    _st["tmpl"]["packed-dulwich"] = pdw
+    _st["pre"]["packed-dulwich"] = pre_state(pdw)
     _st["scen"] = scenarios()
 
 
@@ -371,7 +419,7 @@ def run_scenario(case):
     written = set()  # files written/created during the operation
     layer = fsint.Layer(work)
     counter = [0]
-    power = bool(VARIANTS[variant].get("fsync"))
+    power = bool(VARIANTS.get(variant, {}).get("fsync"))
     unsynced_at = {}
     pending = []
 
@@ -602,10 +650,13 @@ def run_case(case):
 
 def main(ctx):
     cases = []
-    variants = ["loose", "packed", "mixed", "mixed-fsync"]
+    variants = ["loose", "packed", "mixed", "mixed-fsync", "mixed-detached"]
     for s in SCENARIOS:
+        if s == "redeliver_same_objects":
+            cases.append({"kind": "scenario", "scenario": s, "variant": "packed-dulwich", "optional": False})
+            continue
         for v in (variants if ctx.thorough else (["mixed", "mixed-fsync"] + (["loose"] if s in ("pack_refs", "repack", "gc", "pack_loose_objects", "commit") else []) +
-                                                  (["packed"] if s in ("repack", "gc", "pack_loose_objects") else []))):
+                                                  (["packed", "mixed-detached"] if s in ("repack", "gc", "pack_loose_objects") else []))):
             cases.append({"kind": "scenario", "scenario": s, "variant": v, "optional": s in ("write_midx",)})
     rng = ctx.sub_rng("kill")
     kill_scen = ["commit", "pack_refs", "set_if_equals", "repack", "add_objects", "remove_if_equals"] if not ctx.thorough else SCENARIOS
